@@ -24,7 +24,7 @@ pub fn run(args: &Args, r: &mut Report) {
         "c07-committed-at-quiescence",
     ]);
     r.assume("'+N' values and duplicate headers with different values are don't-cares (either verdict accepted until the next definite response)");
-    let n = args.budget(6_000, 200_000);
+    let n = args.budget(24_000, 300_000);
     for i in 0..n {
         if args.skip(i) {
             continue;
